@@ -326,6 +326,26 @@ func loopName(l *loopInfo) string {
 		}
 	}
 	if cond, _, ok := l.exitsOn(l.header); ok {
+		// `for more := true; more; { …; more = next() }` is the do-while `for { …; if !next() { break } }`:
+		// a header test on a flag that carries the previous iteration's value exits on that value
+		if phi, isPhi := normFact(cond, true).Cond.(*ssa.Phi); isPhi && phi.Block() == l.header {
+			var carried ssa.Value
+			okShape := true
+			for i, e := range phi.Edges {
+				_, isConst := e.(*ssa.Const)
+				if l.blocks[l.header.Preds[i]] {
+					if isConst || (carried != nil && carried != e) {
+						okShape = false
+					}
+					carried = e
+				} else if !isConst {
+					okShape = false
+				}
+			}
+			if okShape && carried != nil {
+				return "loop exiting on " + shortDesc(stripNames(describe(carried)))
+			}
+		}
 		return "loop while " + shortDesc(stripNames(describe(cond)))
 	}
 	// first exit condition
